@@ -121,7 +121,7 @@ func rulesC05(c *Ctx) {
 			c.Fail("C05.ledger", key, c.P.InstrPos(call), "ledger location "+loc+" is changed by "+n+" outside quantity.Move/MoveUpTo and SharePool.Deposit/Withdraw: value is created or destroyed without a matching debit/credit")
 		}
 		// whole-value stores into ledger fields
-		for _, b := range fn.Blocks {
+		for _, b := range blocksIP(fn) {
 			for _, in := range b.Instrs {
 				st, ok := in.(*ssa.Store)
 				if !ok {
@@ -207,7 +207,7 @@ func rulesC05(c *Ctx) {
 					}
 				}
 			}
-			for _, b := range fn.Blocks {
+			for _, b := range blocksIP(fn) {
 				for _, in := range b.Instrs {
 					if st, ok := in.(*ssa.Store); ok {
 						if fa, isFA := st.Addr.(*ssa.FieldAddr); isFA && addrBaseIs(st.Addr, gv) && (ledgerFields[fieldKey(fa.X.Type(), fa.Field)] || strings.HasSuffix(fieldKey(fa.X.Type(), fa.Field), ".Nonce")) {
